@@ -9,7 +9,7 @@ from props import judges
 from props.common import TRUSTED_BASE, ASSUMPTIONS
 
 ID = "C14"
-LEAN_MODULES = ["LexVerif.Props.C14", "LexVerif.Props.C14Radix", "LexVerif.Props.Literals.WriteFloatOptions", "LexVerif.Props.Literals.WriteFloatShared", "LexVerif.Props.Literals.WriteFloatAlgorithm", "LexVerif.Props.Literals.WriteFloatCompact", "LexVerif.Props.Literals.WriteFloatBinary", "LexVerif.Props.Literals.WriteFloatHex", "LexVerif.Props.Literals.WriteFloatRadix", "LexVerif.Props.Literals.WriteFloatWrite"]
+LEAN_MODULES = ["LexVerif.Props.C14", "LexVerif.Props.C14Pow2", "LexVerif.Props.C14Radix", "LexVerif.Props.Literals.WriteFloatOptions", "LexVerif.Props.Literals.WriteFloatShared", "LexVerif.Props.Literals.WriteFloatAlgorithm", "LexVerif.Props.Literals.WriteFloatCompact", "LexVerif.Props.Literals.WriteFloatBinary", "LexVerif.Props.Literals.WriteFloatHex", "LexVerif.Props.Literals.WriteFloatRadix", "LexVerif.Props.Literals.WriteFloatWrite"]
 GEN = ["write_tables", "literals"]
 TRUSTED = TRUSTED_BASE + [
     "the digit generators (Dragonbox / Grisu) are not part of C14: theorems quantify over every digit list; the correspondence "
@@ -76,6 +76,7 @@ def streams(tier, rng, fs, profile):
                     o["trim"] = 1
                 ops.append("wf %s %x %x %s %d" % (ty, f, bits, gw.opt_str(o), BIGBUF))
     out.append(("opts-decimal", ops))
+    out.append(("opts-decimal-carry", carry_ops(rng, fmts[0], quick)))
     rads = [r for r in gens.radices(fs) if r != 10]
     if rads:
         rops = []
@@ -93,6 +94,36 @@ def streams(tier, rng, fs, profile):
                     rops.append("wf %s %x %x %s %d" % (ty, f, bits, gw.opt_str(o), BIGBUF))
         out.append(("opts-radix", rops))
     return out
+
+
+def carry_ops(rng, f, quick):
+    """digit rounding that carries into a new leading digit (0.9996 -> 1.00, 9.996 -> 10.0, 99.96e20 -> 1.00e22) at every
+    magnitude class (below 1, above 1, exponent notation), with min = max, min < max, min > 1 and trim on / off"""
+    import struct
+    ops = []
+    mants = ["9996", "99996", "9995", "99951", "995", "9951", "96", "999999999999", "8996", "1996", "19996"]
+    exps = [-1, -2, -4, -5, -6, 0, 1, 2, 8, 9, 10, 22, -30, 300]
+    for m in mants:
+        for e in (exps if not quick else rng.sample(exps, 8)):
+            v = float("0.%se%d" % (m, e + 1))
+            for ty in ("f64", "f32"):
+                if ty == "f32":
+                    if not (1e-37 < abs(v) < 3e38):
+                        continue
+                    bits = struct.unpack("<I", struct.pack("<f", v))[0]
+                else:
+                    bits = struct.unpack("<Q", struct.pack("<d", v))[0]
+                for mx in (1, 2, 3, 4):
+                    for mn in (None, mx, max(1, mx - 1), mx + 2):
+                        for rnd in ("r", "t"):
+                            for trim in (0, 1):
+                                o = gw.rand_opts(rng)
+                                o.update({"mx": mx, "mn": mn if (mn is None or mn <= mx) else None, "rnd": rnd, "trim": trim})
+                                if mn is not None and mn > mx:
+                                    o.update({"mx": None, "mn": mn})
+                                if rng.random() < (0.12 if quick else 1.0):
+                                    ops.append("wf %s %x %x %s %d" % (ty, f, bits, gw.opt_str(o), BIGBUF))
+    return ops
 
 
 def is_default(o):
@@ -131,6 +162,12 @@ def decimal_laws(fs, op, out, dflt, sibling):
     # at most max significant (non-padding) digits
     if o["mx"] is not None and len(nz) > o["mx"]:
         return "more than max_significant_digits=%d significant digits: %s" % (o["mx"], nz)
+    # zero padding is bounded too: beyond max(max, min) digits only the integer digits and the mandatory `.0` may appear
+    if o["mx"] is not None and w.frac is not None:
+        int_sig = len(w.int.lstrip(b"0")) if w.exp is None else 1
+        allowed = max(o["mx"], o["mn"] or 0, int_sig + 1)
+        if len(sig) > allowed:
+            return "zero-padded to %d digits although max(max_significant_digits, min_significant_digits, integer digits + '.0') = %d: %s" % (len(sig), allowed, sig)
     # at least min digits, unless trimmed as an integer
     trimmed = w.frac is None
     if o["mn"] is not None and not trimmed and len(sig) < o["mn"]:
